@@ -38,8 +38,8 @@ CLAIMS = {
  "C08": ("proof", "AllocateInSubnetsAndIPRange proved against the property statement for every list of well-formed requested ranges and every table state: on success exactly one IP per range, the i-th inside the i-th range, free and routable from the node subnet before the call, pairwise distinct, in request order, published under the key, every other entry untouched; on any failure the tables are unchanged and, with at most one failing API call, the store is unchanged (rollback loop invariant). ByKeyAndIPRanges: one slot per range list, the reported IP lies in its own range list, and a slot is nil only if the key holds nothing in that list; getSubnet restricts the offer by every held IP; allocateIP (bind) reports exactly one IP per requested range list, the i-th inside the i-th list, in request order (no nil entry), also when part of the lists was already held.",
          "Client (API server) behaviour assumed as in pkg/ipam/client/.../zz_contracts_verif.go; net.IP.String modelled by uninterpreted functions with the stated axioms; the pod's requested ranges are named by uninterpreted math functions tied to getPodCniArgs' result (assumed). 'None of the k IPs stays allocated on failure' is proved for the IPAM call, not across allocateIP's later provider failures (by design of the code the IPs stay)."),
  "C09": ("proof", "Allocation contracts hand out only entries of the unallocated table; handleFIPAssign moves only a free IP to allocated and refuses an allocated one; ConfigurePool builds disjoint tables whose free entries are blank.", "watch timing not decided."),
- "C19": ("proof", "Lock discipline of the IPAM tables only: for every function of pkg/ipam/floatingip/ipam_crd.go, every read of crdIpam.allocatedFIPs / unallocatedFIPs / FloatingIPs (the field and the map/slice contents) happens with cacheLock held in some mode and every write with the write lock held, or on an object allocated by the very call (constructor). 162 lock obligations, all discharged. A race of ConfigurePool's deferred log was found (race detector replay) and repaired (fix: 28f1946).",
-         "This is NOT race freedom of the process: only the three declared guarded fields of one file are covered; the other anchored files (plugin caches, crdkey, crdcache, cniutil, galaxy server, portmapping, policy) are not swept; publication of objects, goroutine creation and the happens-before of channels are not modelled; helper functions called under the lock carry the lock as a stated precondition."),
+ "C19": ("proof", "Lock discipline of declared guarded fields: for every function of pkg/ipam/floatingip/ipam_crd.go, every read of crdIpam.allocatedFIPs / unallocatedFIPs / FloatingIPs (the field and the map/slice contents) happens with cacheLock held in some mode and every write with the write lock held, or on an object allocated by the very call (constructor); the same for FloatingIPPlugin.nodeSubnet under nodeSubnetLock (floatingip_plugin.go, with the cache fill in ipam.go inlined into its two callers) and crdKey.keyToGVR under its mutex (crdkey.go). Lock obligations and the loop invariants about the lock state, all discharged. A race of ConfigurePool's deferred log was found (race detector replay) and repaired (fix: 28f1946).",
+         "This is NOT race freedom of the process: only the five declared guarded fields are covered; the other anchored files (crdcache, cniutil, galaxy server, portmapping, policy) are not swept; FloatingIPPlugin.Run (goroutine start) is outside the subset and listed as undecided; publication of objects, goroutine creation and the happens-before of channels are not modelled; helper functions called under the lock carry the lock as a stated precondition."),
  "C17": ("proof", "Safety half of the GC property: (*flannelGC).shouldCleanup answers true only if the runtime reports the container gone (docker: not-found error; containerd: gRPC NotFound) or exited/dead (docker) or its sandbox not ready (containerd), and never on any other inspect error; removeLeakyStateFile/removeLeakyIPFile remove exactly the named file; one cleanupGCDirs pass removes a state file / cleans a port mapping only for an entry name that shouldCleanup approved in that pass (ghost sets Removed and PortsCleaned against the runtime oracle). All inputs: any directory listing, any mix of container states, any inspect error.",
          "The runtime is an ASSUMED oracle (pkg/api/docker/zz_contracts_verif.go: an answer reflects ghost truth, not-found is reported by the dedicated error); os.Remove/ReadDir/filepath are assumed (names are strings, Base(Join(d,n)) == n). cleanupIP (owner read from the file content), cleanupVeth (netlink) and the liveness half ('everything is removed within a bounded number of rounds') are NOT claimed; the containerd branch's pod lookup is proved only up to 'sandbox not ready'."),
  "C18": ("proof", "Zero-annotation safety sweep (plus surface invariants as typeinv/requires): for every function of the listed files (pkg/utils/nets/ip.go, pkg/ipam/floatingip/{floatingip.go,ipam_crd.go}, pkg/utils/page/page.go, pkg/ipam/schedulerplugin/util/utils.go, pkg/api/k8s/k8s.go) that is inside the supported subset, every generated no-panic obligation is discharged for all inputs satisfying the stated surface invariant: nil dereference, index/slice bounds, nil-map write, failed type assertion, division by zero, explicit panic, signed 64-bit overflow, callee preconditions, and termination of loops that carry a measure. "
